@@ -298,6 +298,57 @@ theorem wfd_domainDecls (dom : List (DomVar α)) (h : ∀ d ∈ dom, isKeyword d
     rw [← h3]
     exact wft_ptyOf tok (h d0 hd0).2
 
+/-- no declaration of the `define` block begins with a word that reads `for` -/
+theorem nofor_domainDecls (dom : List (DomVar α)) (h : ∀ d ∈ dom, lowerWord d.name ≠ "for") :
+    ∀ d ∈ domainDecls tok dom, NotForHead (domainToks d) := by
+  intro d hd
+  unfold domainDecls at hd
+  simp only [List.mem_map] at hd
+  obtain ⟨⟨k, ty, ns⟩, hx, rfl⟩ := hd
+  obtain ⟨h1, h2, _⟩ := groups_ok tok dom dom (fun _ h => h) [] (by intro x hx; cases hx) _ hx
+  simp only at h1 h2
+  cases ns with
+  | nil => exact absurd rfl h1
+  | cons n ns =>
+    obtain ⟨d1, hd1, hn1⟩ := h2 n List.mem_cons_self
+    intro w r e
+    have hw : w = n := by
+      cases ns with
+      | nil =>
+        simp only [domainToks, List.map_cons, List.map_nil, varListToks, cnameToks, List.cons_append, List.nil_append] at e
+        injection e with e1 _; injection e1 with e1; exact e1.symm
+      | cons m ms =>
+        simp only [domainToks, List.map_cons, varListToks, cnameToks, List.cons_append, List.nil_append, List.append_assoc] at e
+        injection e with e1 _; injection e1 with e1; exact e1.symm
+    rw [hw, ← hn1]
+    exact h d1 hd1
+
+theorem headName_restP : ∀ (ts : List (String × α)) (acc : PExp), headName (restP tok acc ts) = headName acc
+  | [], acc => rfl
+  | (v, c) :: ts, acc => by
+    simp only [restP]
+    rw [headName_restP ts]
+    rfl
+
+/-- a printed linear expression begins with a variable of its terms, if it begins with a word at all -/
+theorem headName_linExp (ts : List (String × α)) (w : String) (h : headName (linExpP tok ts) = some w) : ∃ p ∈ ts, p.1 = w := by
+  cases ts with
+  | nil => simp [linExpP, headName] at h
+  | cons p ts =>
+    obtain ⟨v, c⟩ := p
+    simp only [linExpP, headName_restP] at h
+    refine ⟨(v, c), List.mem_cons_self, ?_⟩
+    cases hs : (formatVarParts c).1 with
+    | true => simp [hs, headName] at h
+    | false =>
+      simp only [hs, Bool.false_eq_true, if_false] at h
+      cases hm : (formatVarParts c).2 with
+      | none => simp only [hm, termBodyP, headName] at h; injection h
+      | some m =>
+        simp only [hm, termBodyP, headName] at h
+        unfold numP at h
+        split at h <;> simp [headName] at h
+
 /-! ### `Display for LinearModel` -/
 
 /-- the linear models the theorem covers: names that are not keywords, digit-string tokens that fit `i64` -/
@@ -309,6 +360,11 @@ structure LinFrag (lm : LinModel α) : Prop where
   obj_ok : ∀ c ∈ lm.objective, IntOk (tok (Arith.abs c))
   off_ok : ValOk tok lm.offset
   dom_ok : ∀ d ∈ lm.domain, isKeyword d.name = false ∧ TyOk tok d.ty
+  /-- no name reads `for` in some letter case: `for_iteration = _{ ^"for" ~ … }` is matched in any letter case, a line
+  that begins with such a name could be taken for the iteration of the line before it -/
+  nofor_vars : ∀ v ∈ lm.vars, lowerWord v ≠ "for"
+  nofor_rows : ∀ r ∈ lm.rows, lowerWord r.name ≠ "for"
+  nofor_dom : ∀ d ∈ lm.domain, lowerWord d.name ≠ "for"
 
 theorem lineOk_row {lm : LinModel α} (h : LinFrag tok lm) {r : LinRow α} (hr : r ∈ lm.rows) {l : Line}
     (hl : rowLineOf tok lm.vars r = some l) : LineOk l := by
@@ -319,7 +375,7 @@ theorem lineOk_row {lm : LinModel α} (h : LinFrag tok lm) {r : LinRow α} (hr :
     let ⟨h1, h2⟩ := termList_mem r.coeffs lm.vars ts hts p hp
     ⟨h.vars_ok _ h1, h.coef_ok r hr _ h2⟩
   obtain ⟨items, hk, _⟩ := tk_linExp tok ts hok
-  refine ⟨?_, ⟨items, hk⟩, ?_⟩
+  refine ⟨?_, ⟨items, hk⟩, ?_, ?_, ?_⟩
   · intro n hn
     simp only at hn
     split at hn
@@ -329,6 +385,14 @@ theorem lineOk_row {lm : LinModel α} (h : LinFrag tok lm) {r : LinRow α} (hr :
     simp only [Option.some.injEq, Prod.mk.injEq] at he
     obtain ⟨_, rfl, rfl⟩ := he
     exact tk_rhs tok (h.rhs_ok r hr)
+  · intro n hn
+    simp only at hn
+    split at hn
+    · cases hn
+    · cases hn; exact h.nofor_rows r hr
+  · intro w hw
+    obtain ⟨p, hp, rfl⟩ := headName_linExp tok ts w hw
+    exact h.nofor_vars _ (termList_mem r.coeffs lm.vars ts hts p hp).1
 
 /-- **`Display for LinearModel` → program parser**: the tokens of the rendered linear model are read back as the
 `PreModel` `linProgram` — same objective kind, one constraint per row with its name, comparison and the trees of
@@ -364,7 +428,7 @@ theorem parseProgram_linToks (lm : LinModel α) (h : LinFrag tok lm) (hrows : lm
         ⟨h.vars_ok _ h1, h.obj_ok _ h2⟩
       obtain ⟨io, hko, hso⟩ := tk_linExp tok ots hobjok
       obtain ⟨io', hko'⟩ := tk_offset tok h.off_ok hko hso
-      apply parseProgram_lines _ _ _ _ l ls hok _ (wfd_domainDecls tok lm.domain h.dom_ok)
+      apply parseProgram_lines _ _ _ _ l ls hok _ (wfd_domainDecls tok lm.domain h.dom_ok) (nofor_domainDecls tok lm.domain h.nofor_dom)
       cases lm.optType with
       | satisfy => rfl
       | min => exact ⟨io', hko'⟩
@@ -387,10 +451,18 @@ theorem constraintLine_toks (c : Constraint α) : (constraintLine tok c).toks = 
   unfold constraintLine Line.toks constraintDToks
   cases c.isAssert <;> cases c.name.isEmpty <;> simp [tailToks]
 
-theorem lineOk_constraint (c : Constraint α) (h : FragC tok numOf c) : LineOk (constraintLine tok c) := by
+theorem lineOk_constraint (c : Constraint α) (h : FragC tok numOf c)
+    (hnf : lowerWord c.name ≠ "for" ∧ ∀ w, headName (toP tok c.lhs) = some w → lowerWord w ≠ "for") :
+    LineOk (constraintLine tok c) := by
   obtain ⟨hn, hl, hr⟩ := h
   obtain ⟨il, hkl, _⟩ := tkShow tok numOf c.lhs hl none
-  refine ⟨?_, ⟨il, hkl⟩, ?_⟩
+  refine ⟨?_, ⟨il, hkl⟩, ?_, ?_, hnf.2⟩
+  rotate_left 2
+  · intro n hn'
+    simp only [constraintLine] at hn'
+    split at hn'
+    · cases hn'
+    · cases hn'; exact hnf.1
   · intro n hn'
     simp only [constraintLine] at hn'
     split at hn'
@@ -417,6 +489,10 @@ structure ModelFrag (m : Model α) : Prop where
   obj_ok : m.optType = .satisfy ∨ Frag tok numOf m.objective
   cons_ok : ∀ c ∈ m.constraints, FragC tok numOf c
   dom_ok : ∀ d ∈ m.domain, isKeyword d.name = false ∧ TyOk tok d.ty
+  /-- no line and no declaration begins with a word that reads `for` in some letter case (`for_iteration = _{ ^"for" ~ … }`
+  is matched in any letter case: such a line could be taken for the iteration of the line before it) -/
+  nofor_cons : ∀ c ∈ m.constraints, lowerWord c.name ≠ "for" ∧ ∀ w, headName (toP tok c.lhs) = some w → lowerWord w ≠ "for"
+  nofor_dom : ∀ d ∈ m.domain, lowerWord d.name ≠ "for"
 
 /-- **`Display for Model` → program parser**: the tokens of the rendered compiled model are read back as the
 `PreModel` `modelProgram`. -/
@@ -430,9 +506,9 @@ theorem parseProgram_modelToks (m : Model α) (h : ModelFrag tok numOf m) (hc : 
       intro d hd
       simp only [List.mem_map] at hd
       obtain ⟨c', hc', rfl⟩ := hd
-      exact lineOk_constraint tok numOf c' (h.cons_ok c' (hcs ▸ hc'))
+      exact lineOk_constraint tok numOf c' (h.cons_ok c' (hcs ▸ hc')) (h.nofor_cons c' (hcs ▸ hc'))
     simp only [List.map_cons] at hok ⊢
-    apply parseProgram_lines _ _ _ _ _ _ hok _ (wfd_domainDecls tok m.domain h.dom_ok)
+    apply parseProgram_lines _ _ _ _ _ _ hok _ (wfd_domainDecls tok m.domain h.dom_ok) (nofor_domainDecls tok m.domain h.nofor_dom)
     cases hop : m.optType with
     | satisfy => rfl
     | min =>
